@@ -62,7 +62,15 @@ func selNode(s *xSel) *wnode {
 		p := elemE(nsDAV, "prop", nil)
 		for _, it := range s.items {
 			if !it.addressData {
-				p.kids = append(p.kids, elemZ(it.ns, it.local, nil))
+				o := elemZ(it.ns, it.local, nil)
+				if it.deep > 0 { // content of a requested property the server does not know: nested it.deep levels
+					inner := elemZ("urn:ext", "leaf", nil)
+					for d := 1; d < it.deep; d++ {
+						inner = elemE("urn:ext", "n", nil, inner)
+					}
+					o = elemE(it.ns, it.local, nil, inner)
+				}
+				p.kids = append(p.kids, o)
 				continue
 			}
 			ad := elemE(nsCard, "address-data", nil)
@@ -145,6 +153,8 @@ type style struct {
 	reorder  bool
 	junkRate int
 	mutated  bool // malformed stream: one structural mutation before rendering
+	empty    bool // malformed stream: the body is empty
+	trunc    bool // malformed stream: the body breaks off
 }
 
 var (
@@ -155,7 +165,8 @@ var (
 )
 
 func newStyle(seed uint64) *style {
-	st := &style{rng: hx.NewRand(seed ^ 0xC09C09), plain: seed == 0, mutated: seed&mutateFlag != 0}
+	st := &style{rng: hx.NewRand(seed ^ 0xC09C09), plain: seed == 0, mutated: seed&mutateFlag != 0,
+		empty: seed&emptyFlag != 0, trunc: seed&truncFlag != 0}
 	if !st.plain {
 		st.collide = seed%64 == 63
 		st.reorder = st.rng.Chance(1, 5)
@@ -189,6 +200,15 @@ func (st *style) pickPrefix(ns string) string {
 
 func (st *style) render(root *wnode) []byte {
 	st.sb.Reset()
+	if st.empty {
+		st.mutated = true
+		return nil
+	}
+	if st.trunc {
+		st.mutated = true
+		doc := (&style{rng: st.rng, plain: st.plain, junkRate: st.junkRate}).render(root)
+		return doc[:len(doc)*2/3]
+	}
 	if st.mutated {
 		mutate(root, st.rng)
 	}
